@@ -204,7 +204,9 @@ class Scope(object):
         self.parent.hidden.update(self.hidden)
       else:
         # TODO(mdan): This is not accurate.
-        self.parent.read.update(self.read - self.bound)
+        # A name the nested function declares nonlocal is the enclosing
+        # function's variable: reading it there reads that variable.
+        self.parent.read.update(self.read - (self.bound - self.nonlocals))
         self.parent.annotations.update(self.annotations - self.bound)
         # The names bound in a nested function or lambda (its parameters
         # included) shadow whatever the enclosing function generates.
